@@ -80,8 +80,10 @@ class Scenario:
         self.shape = shape
         self.chromosomes = ["chrA", "chrB"][: shape["nchrom"]]
         fam = shape["families"]  # "single", "trio", "trio+single", "two singles"
-        self.samples = {"single": ["s1"], "trio": ["f", "m", "c"], "trio+single": ["f", "m", "c", "s1"], "two singles": ["s1", "s2"]}[fam]
-        self.ped = "ped.txt" if "trio" in fam else None
+        # quartet: two children of the same parents; the VCF lists child d BEFORE child c, the PED file c before d
+        self.samples = {"single": ["s1"], "trio": ["f", "m", "c"], "trio+single": ["f", "m", "c", "s1"], "two singles": ["s1", "s2"], "quartet": ["f", "m", "d", "c"]}[fam]
+        self.ped = "ped.txt" if ("trio" in fam or fam == "quartet") else None
+        self.rel_order = {}  # (chromosome, family) -> children in the order create_pedigree added their relationships
         self.distrust = shape["distrust"]
         self.calls = []  # (chromosome, family) in processing order
         self.handed = {}  # (chromosome, family tuple) -> reads handed to the solver
@@ -113,7 +115,8 @@ class AuxReports(SubCheck):
     sources = ["whatshap/cli/phase.py", "whatshap/pedigree.py", "whatshap/vcf.py", "whatshap/graph.py", "whatshap/merge.py"]
     stubs = ["VcfReader (yields VariantTables built by the harness)", "PhasedInputReader.read (returns harness-chosen read sets)", "readselection (identity)", "PedigreeDPTable (contract stub: arbitrary super reads, partition, transmission vector)", "PhasedVcfWriter (records calls, returns a harness-chosen list of GenotypeChange when genotypes are distrusted, none otherwise - C04/C01 justify that)", "open (in-memory file system in the symbolic run, scratch directory in the replay)", "whatshap.core data classes: vf/models/core_model.py in the symbolic run, the compiled module in the replay"]
     assumptions = ["the VCF writer reports exactly the genotype differences it made (C04) and none without --distrust-genotypes (C01/C05: trusted mode only permutes alleles)"]
-    required_cover = ["two chromosomes", "two families", "recombination event produced", "genotype change produced", "read list requested", "phase set nested inside another one", "read attributed to the phase set its first variant has in the VCF", "phase set starting on the first base of the contig"]
+    required_cover = ["two chromosomes", "two families", "recombination event produced", "genotype change produced", "read list requested", "phase set nested inside another one", "read attributed to the phase set its first variant has in the VCF", "phase set starting on the first base of the contig",
+                      "two children in one family", "recombination in one of two children"]
     hash_mode = "concretise"
 
     def shapes(self, tier):
@@ -126,6 +129,7 @@ class AuxReports(SubCheck):
                     out.append(dict(nchrom=nchrom, families=fam, distrust=distrust, nvar=3 if tier == "quick" else 4))
         # five variants: room for a two-variant phase set nested inside the family's block (a recombination next to it must not be attributed to it)
         out.append(dict(nchrom=1, families="trio", distrust=False, nvar=5))
+        out.append(dict(nchrom=1, families="quartet", distrust=False, nvar=3))
         if tier != "quick":
             out.append(dict(nchrom=2, families="trio+single", distrust=True, nvar=5))
         return out
@@ -201,7 +205,7 @@ class AuxReports(SubCheck):
                     vt.add_variant(vcf.BiallelicVcfVariant(p, "A", "C"), gts, [None] * len(sc.samples), [None] * len(sc.samples), [None] * len(sc.samples))
                 tables.append(vt)
             if sc.ped:
-                ped_text = "fam1 c f m 0 1\n"
+                ped_text = "fam1 c f m 0 1\n" + ("fam1 d f m 0 1\n" if shape["families"] == "quartet" else "")
                 if impl == "sym":
                     fs.files["ped.txt"] = ped_text
                 else:
@@ -264,7 +268,7 @@ class AuxReports(SubCheck):
                 def read(self2, chromosome, variants, sample):
                     rs = core.ReadSet()
                     # one solver-chosen pattern per chromosome for the family members, an own one for the unrelated single
-                    grp = "fam" if sample in ("f", "m", "c") else sample
+                    grp = "fam" if sample in ("f", "m", "c", "d") else sample
                     pos = [v.position for v in variants]
                     pats = ["all", "split"] if grp == "fam" else ["all", "split", "none"]
                     if len(pos) >= 5:
@@ -306,7 +310,13 @@ class AuxReports(SubCheck):
                             rs.add(r)
                         out.append(rs)
                     n = len(self2.positions)
-                    if self2.ped.trios:
+                    if len(self2.ped.trios) == 2:
+                        # quartet: the solver's transmission value holds two bits per relationship IN THE ORDER THEY WERE ADDED
+                        # (C05 ped_parts); only one child recombines, at the last position
+                        sc.rel_order[(sc.cur_chrom(), tuple(self2.ped.samples))] = [t[2] for t in self2.ped.trios]
+                        k = e.choice("recombining_relationship_%s" % sc.cur_chrom(), [None, 0, 1])
+                        tv = [0] * n if (k is None or n == 0) else [0] * (n - 1) + [1 << (2 * k)]
+                    elif self2.ped.trios:
                         pat = e.choice("tv_%s" % sc.cur_chrom(), ["const", "one", "two"])
                         tv = {"const": [0] * n, "one": [0] * (n - 1) + [1] if n else [], "two": ([0] * (n - 2) + [2, 1]) if n >= 2 else [0] * n}[pat]
                     else:
@@ -440,6 +450,20 @@ class AuxReports(SubCheck):
                 acc = sc.accessible[key]
                 # the stub's reads decide the components; events are changes of the transmission value at index >= 2 inside one component
                 comp = self.components(sc.handed[key], acc, fam)
+                if key in sc.rel_order:
+                    # two children: an event belongs to the child whose relationship's bits changed ("reported transmission" of C05)
+                    e.cover("two children in one family")
+                    for i in range(2, len(acc)):
+                        blk = [p for p in acc if comp[p] == comp[acc[i]]]
+                        if not (comp[acc[i - 1]] == comp[acc[i]] and blk.index(acc[i]) >= 2):
+                            continue
+                        for k, child in enumerate(sc.rel_order[key]):
+                            changed = ((tv[i - 1] >> (2 * k)) & 3) != ((tv[i] >> (2 * k)) & 3)
+                            listed = any(r[0] == child and r[1] == chrom and int(r[2]) == acc[i - 1] + 1 and int(r[3]) == acc[i] + 1 for r in rlines)
+                            if changed:
+                                e.cover("recombination in one of two children")
+                            e.check(listed == changed, "recombination list attributes an event to the wrong child (the solver's transmission bits follow the order in which the relationships were added)",
+                                    lambda: dict(info(), child=child, relationships_added_in_order=sc.rel_order[key], transmission_vector=tv))
                 for i in range(2, len(acc)):
                     blk = [p for p in acc if comp[p] == comp[acc[i]]]
                     if comp[acc[i - 1]] == comp[acc[i]] and blk.index(acc[i]) >= 2 and tv[i - 1] != tv[i]:
